@@ -19,6 +19,11 @@ func main() {
 	switch os.Args[1] {
 	case "worker":
 		os.Exit(core.WorkerMain(os.Args[2:]))
+	case "child":
+		if len(os.Args) < 3 || core.Children[os.Args[2]] == nil {
+			os.Exit(64)
+		}
+		os.Exit(core.Children[os.Args[2]](os.Args[3:]))
 	case "list":
 		for _, id := range core.IDs() {
 			fmt.Println(id, core.Lookup(id).Title)
